@@ -124,7 +124,8 @@ Inductive eff :=
 | EBTry (w : nat) (j : job) | EBOk (w : nat) | EBAbort (w : nat) | EBTake (j : job) | EBClose | EBClosedEmpty
 | ESpawnFW | ESpawnBW
 | ENeedFilesDone | ENeedBlocksDone
-| ESurvive (j : job).                        (* ghost: the block went on to be scanned *)
+| ESurvive (j : job)                         (* ghost: the block went on to be scanned *)
+| ERec (j : job).                            (* ghost: the block's stats entry was recorded *)
 
 (* ------------------------------------------------------------------ file stage *)
 Inductive fspc :=
@@ -231,12 +232,12 @@ Definition fw_local (e : qenv) (r sd : nat) (w : fwst) (v : ev) : option (fwst *
       if (i =? i')%nat then Some (fw0 (mk_unread f [i] (FLoop f (S i) sv)) w, []) else None
   | FUnread f (i :: todo) k, VResStat =>
       match blk_stat stat_unread f i with
-      | Some st => Some (fw0 (mk_unread f todo k) w, [ECur (LRecordStat st)])
+      | Some st => Some (fw0 (mk_unread f todo k) w, [ECur (LRecordStat st); ERec (f_id f, i)])
       | None => None
       end
   | FPruned f i sv, VResStat =>
       match blk_stat stat_pruned f i with
-      | Some st => Some (fw0 (FLoop f (S i) sv) w, [ECur (LRecordStat st)])
+      | Some st => Some (fw0 (FLoop f (S i) sv) w, [ECur (LRecordStat st); ERec (f_id f, i)])
       | None => None
       end
   | FPutBack f true sv, VPoolPut f' c => if Z.eqb (f_id f) f' then Some (fw0 (FPostEval f sv) w, [EPool (PPut r f' c)]) else None
@@ -368,7 +369,7 @@ Definition bw_local (e : qenv) (r sd : nat) (w : bwst) (v : ev) : option (bwst *
   | BEnded j rows bytes, VResStat =>
       match job_block e j with
       | Some b => Some (bw0 (rel_slot (bw_held w) j) w,
-                        [ECur (LRecordStat (stat_scanned (fst j) (b_off b) rows bytes (b_rows b) (b_tbytes b)))])
+                        [ECur (LRecordStat (stat_scanned (fst j) (b_off b) rows bytes (b_rows b) (b_tbytes b))); ERec j])
       | None => None
       end
   | BRelSlot j, VSlotRel => if bw_held w then Some (bwheld (BRelRef j false) false w, [ESlotRel]) else None
@@ -412,7 +413,9 @@ Record qstate := {
   q_fws : list fwst;
   q_bws : list bwst;
   q_td : tdpc;
-  q_survived : list job          (* ghost: blocks that went on to be scanned *)
+  q_survived : list job;         (* ghost: blocks that went on to be scanned *)
+  q_started : list fileid;       (* ghost: files handed to the file workers *)
+  q_recorded : list job          (* ghost: blocks whose stats entry was recorded *)
 }.
 
 Record gstate := { g_cap : nat; g_used : nat; g_qs : list qstate }.
@@ -420,7 +423,7 @@ Record gstate := { g_cap : nat; g_used : nat; g_qs : list qstate }.
 Definition qinit (e : qenv) (closers : nat) : qstate :=
   {| q_env := e; q_cur := cinit closers; q_pool := pinit; q_fs := SRun (e_items e);
      q_fjobs := []; q_fclosed := false; q_bjobs := []; q_bclosed := false;
-     q_fws := []; q_bws := []; q_td := TWaitFiles; q_survived := [] |}.
+     q_fws := []; q_bws := []; q_td := TWaitFiles; q_survived := []; q_started := []; q_recorded := [] |}.
 
 Definition ginit (cap : nat) (es : list (qenv * nat)) : gstate :=
   {| g_cap := cap; g_used := 0; g_qs := map (fun ec => qinit (fst ec) (snd ec)) es |}.
@@ -441,31 +444,39 @@ Definition external_label (l : clabel) : bool :=
 
 Definition set_cur (q : qstate) (c : cur) : qstate :=
   {| q_env := q_env q; q_cur := c; q_pool := q_pool q; q_fs := q_fs q; q_fjobs := q_fjobs q; q_fclosed := q_fclosed q;
-     q_bjobs := q_bjobs q; q_bclosed := q_bclosed q; q_fws := q_fws q; q_bws := q_bws q; q_td := q_td q; q_survived := q_survived q |}.
+     q_bjobs := q_bjobs q; q_bclosed := q_bclosed q; q_fws := q_fws q; q_bws := q_bws q; q_td := q_td q; q_survived := q_survived q; q_started := q_started q; q_recorded := q_recorded q |}.
 Definition set_pool (q : qstate) (p : pool) : qstate :=
   {| q_env := q_env q; q_cur := q_cur q; q_pool := p; q_fs := q_fs q; q_fjobs := q_fjobs q; q_fclosed := q_fclosed q;
-     q_bjobs := q_bjobs q; q_bclosed := q_bclosed q; q_fws := q_fws q; q_bws := q_bws q; q_td := q_td q; q_survived := q_survived q |}.
+     q_bjobs := q_bjobs q; q_bclosed := q_bclosed q; q_fws := q_fws q; q_bws := q_bws q; q_td := q_td q; q_survived := q_survived q; q_started := q_started q; q_recorded := q_recorded q |}.
 Definition set_fjobs (q : qstate) (l : list centry) (c : bool) : qstate :=
   {| q_env := q_env q; q_cur := q_cur q; q_pool := q_pool q; q_fs := q_fs q; q_fjobs := l; q_fclosed := c;
-     q_bjobs := q_bjobs q; q_bclosed := q_bclosed q; q_fws := q_fws q; q_bws := q_bws q; q_td := q_td q; q_survived := q_survived q |}.
+     q_bjobs := q_bjobs q; q_bclosed := q_bclosed q; q_fws := q_fws q; q_bws := q_bws q; q_td := q_td q; q_survived := q_survived q; q_started := q_started q; q_recorded := q_recorded q |}.
 Definition set_bjobs (q : qstate) (l : list centry) (c : bool) : qstate :=
   {| q_env := q_env q; q_cur := q_cur q; q_pool := q_pool q; q_fs := q_fs q; q_fjobs := q_fjobs q; q_fclosed := q_fclosed q;
-     q_bjobs := l; q_bclosed := c; q_fws := q_fws q; q_bws := q_bws q; q_td := q_td q; q_survived := q_survived q |}.
+     q_bjobs := l; q_bclosed := c; q_fws := q_fws q; q_bws := q_bws q; q_td := q_td q; q_survived := q_survived q; q_started := q_started q; q_recorded := q_recorded q |}.
 Definition set_fws (q : qstate) (l : list fwst) : qstate :=
   {| q_env := q_env q; q_cur := q_cur q; q_pool := q_pool q; q_fs := q_fs q; q_fjobs := q_fjobs q; q_fclosed := q_fclosed q;
-     q_bjobs := q_bjobs q; q_bclosed := q_bclosed q; q_fws := l; q_bws := q_bws q; q_td := q_td q; q_survived := q_survived q |}.
+     q_bjobs := q_bjobs q; q_bclosed := q_bclosed q; q_fws := l; q_bws := q_bws q; q_td := q_td q; q_survived := q_survived q; q_started := q_started q; q_recorded := q_recorded q |}.
 Definition set_bws (q : qstate) (l : list bwst) : qstate :=
   {| q_env := q_env q; q_cur := q_cur q; q_pool := q_pool q; q_fs := q_fs q; q_fjobs := q_fjobs q; q_fclosed := q_fclosed q;
-     q_bjobs := q_bjobs q; q_bclosed := q_bclosed q; q_fws := q_fws q; q_bws := l; q_td := q_td q; q_survived := q_survived q |}.
+     q_bjobs := q_bjobs q; q_bclosed := q_bclosed q; q_fws := q_fws q; q_bws := l; q_td := q_td q; q_survived := q_survived q; q_started := q_started q; q_recorded := q_recorded q |}.
 Definition set_fs (q : qstate) (pc : fspc) : qstate :=
   {| q_env := q_env q; q_cur := q_cur q; q_pool := q_pool q; q_fs := pc; q_fjobs := q_fjobs q; q_fclosed := q_fclosed q;
-     q_bjobs := q_bjobs q; q_bclosed := q_bclosed q; q_fws := q_fws q; q_bws := q_bws q; q_td := q_td q; q_survived := q_survived q |}.
+     q_bjobs := q_bjobs q; q_bclosed := q_bclosed q; q_fws := q_fws q; q_bws := q_bws q; q_td := q_td q; q_survived := q_survived q; q_started := q_started q; q_recorded := q_recorded q |}.
 Definition set_td (q : qstate) (pc : tdpc) : qstate :=
   {| q_env := q_env q; q_cur := q_cur q; q_pool := q_pool q; q_fs := q_fs q; q_fjobs := q_fjobs q; q_fclosed := q_fclosed q;
-     q_bjobs := q_bjobs q; q_bclosed := q_bclosed q; q_fws := q_fws q; q_bws := q_bws q; q_td := pc; q_survived := q_survived q |}.
+     q_bjobs := q_bjobs q; q_bclosed := q_bclosed q; q_fws := q_fws q; q_bws := q_bws q; q_td := pc; q_survived := q_survived q; q_started := q_started q; q_recorded := q_recorded q |}.
 Definition add_survived (q : qstate) (j : job) : qstate :=
   {| q_env := q_env q; q_cur := q_cur q; q_pool := q_pool q; q_fs := q_fs q; q_fjobs := q_fjobs q; q_fclosed := q_fclosed q;
-     q_bjobs := q_bjobs q; q_bclosed := q_bclosed q; q_fws := q_fws q; q_bws := q_bws q; q_td := q_td q; q_survived := q_survived q ++ [j] |}.
+     q_bjobs := q_bjobs q; q_bclosed := q_bclosed q; q_fws := q_fws q; q_bws := q_bws q; q_td := q_td q; q_survived := q_survived q ++ [j]; q_started := q_started q; q_recorded := q_recorded q |}.
+Definition add_started (q : qstate) (f : fileid) : qstate :=
+  {| q_env := q_env q; q_cur := q_cur q; q_pool := q_pool q; q_fs := q_fs q; q_fjobs := q_fjobs q; q_fclosed := q_fclosed q;
+     q_bjobs := q_bjobs q; q_bclosed := q_bclosed q; q_fws := q_fws q; q_bws := q_bws q; q_td := q_td q; q_survived := q_survived q;
+     q_started := q_started q ++ [f]; q_recorded := q_recorded q |}.
+Definition add_recorded (q : qstate) (j : job) : qstate :=
+  {| q_env := q_env q; q_cur := q_cur q; q_pool := q_pool q; q_fs := q_fs q; q_fjobs := q_fjobs q; q_fclosed := q_fclosed q;
+     q_bjobs := q_bjobs q; q_bclosed := q_bclosed q; q_fws := q_fws q; q_bws := q_bws q; q_td := q_td q; q_survived := q_survived q;
+     q_started := q_started q; q_recorded := q_recorded q ++ [j] |}.
 
 (* one effect on (semaphore count, query); [fx]: the cursor code (D7 fix or pinned) *)
 Definition apply_eff (fx : bool) (cap : nat) (uq : nat * qstate) (e : eff) : option (nat * qstate) :=
@@ -476,7 +487,7 @@ Definition apply_eff (fx : bool) (cap : nat) (uq : nat * qstate) (e : eff) : opt
   | ESlotAcq => if u <? cap then Some (S u, q) else None
   | ESlotRel => match u with S u' => Some (u', q) | O => None end
   | ENeedInt => if x_int (c_x (q_cur q)) then Some (u, q) else None
-  | EFTry f => if q_fclosed q || negb (c_sender_free 0 (q_fjobs q)) then None else Some (u, set_fjobs q (c_try 0 f (q_fjobs q)) false)
+  | EFTry f => if q_fclosed q || negb (c_sender_free 0 (q_fjobs q)) then None else Some (u, add_started (set_fjobs q (c_try 0 f (q_fjobs q)) false) f)
   | EFOk => match c_ok 0 (q_fjobs q) with Some l => Some (u, set_fjobs q l (q_fclosed q)) | None => None end
   | EFAbort => match c_abort 0 (q_fjobs q) with Some l => Some (u, set_fjobs q l (q_fclosed q)) | None => None end
   | EFTake f => match c_take Z.eqb f (q_fjobs q) with Some l => Some (u, set_fjobs q l (q_fclosed q)) | None => None end
@@ -493,6 +504,7 @@ Definition apply_eff (fx : bool) (cap : nat) (uq : nat * qstate) (e : eff) : opt
   | ENeedFilesDone => if fs_exited q && forallb fw_exited (q_fws q) then Some (u, q) else None
   | ENeedBlocksDone => if forallb bw_exited (q_bws q) then Some (u, q) else None
   | ESurvive j => Some (u, add_survived q j)
+  | ERec j => Some (u, add_recorded q j)
   end.
 
 Fixpoint apply_effs (fx : bool) (cap : nat) (uq : nat * qstate) (es : list eff) : option (nat * qstate) :=
